@@ -269,22 +269,29 @@ StructFields(prog, n) ==
   ELSE LET S == {i \in 1..Len(prog.structs) : prog.structs[i].n = n} IN
        IF S = {} THEN <<>> ELSE prog.structs[CHOOSE i \in S : TRUE].fs
 \* What is wrong with a struct literal whose field values are vals (src/eval.rs eval_struct_value): fields are
-\* taken in the literal's order; a name the struct does not declare (or gives twice) and a value of the wrong
-\* type are reported at that field, a missing field at the literal.  ek = "" if nothing is wrong.
+\* taken in the literal's order; a name the struct does not declare and a value of the wrong type are reported
+\* at that field, a missing field at the literal.  A field given twice is not an error (the checker only warns
+\* about it): the later value wins, see SlitFields.  ek = "" if nothing is wrong.
 SlitProblem(prog, e, vals) ==
   LET decl == StructFields(prog, e.n)
       Declared(nm) == {j \in 1..Len(decl) : decl[j].n = nm}
       BadAt(i) == \/ Declared(e.fs[i].n) = {}
-                  \/ \E j \in 1..(i - 1) : e.fs[j].n = e.fs[i].n
                   \/ ~HasType(vals[i], decl[CHOOSE j \in Declared(e.fs[i].n) : TRUE].t)
       B == {i \in 1..Len(e.fs) : BadAt(i)} IN
   IF decl = <<>> THEN [ek |-> "", line |-> 0]
   ELSE IF B # {} THEN
        LET i == CHOOSE i \in B : \A j \in B : i <= j IN
-       [ek |-> IF Declared(e.fs[i].n) = {} \/ \E j \in 1..(i - 1) : e.fs[j].n = e.fs[i].n THEN "NoField" ELSE "TypeError",
-        line |-> e.fs[i].e.line]
+       [ek |-> IF Declared(e.fs[i].n) = {} THEN "NoField" ELSE "TypeError", line |-> e.fs[i].e.line]
   ELSE IF \E j \in 1..Len(decl) : \A i \in 1..Len(e.fs) : e.fs[i].n # decl[j].n THEN [ek |-> "NoField", line |-> e.line]
   ELSE [ek |-> "", line |-> 0]
+
+\* The fields of the value a struct literal builds: one per distinct name, at the place of the name's first
+\* occurrence, holding the value of its last occurrence.
+SlitFields(e, vals) ==
+  LET First(i) == \A j \in 1..(i - 1) : e.fs[j].n # e.fs[i].n
+      LastOf(nm) == CHOOSE i \in 1..Len(e.fs) : e.fs[i].n = nm /\ \A j \in (i + 1)..Len(e.fs) : e.fs[j].n # nm
+      idx == SelectSeq([i \in 1..Len(e.fs) |-> i], First) IN
+  [k \in 1..Len(idx) |-> [n |-> e.fs[idx[k]].n, v |-> vals[LastOf(e.fs[idx[k]].n)]]]
 
 \* Fold the evaluated key / value pairs of a dictionary literal, first pair to last (a later duplicate wins);
 \* vals alternates value, key (see dlit below).  A key that is not a string is a type error at that key.
@@ -362,7 +369,7 @@ Eval(prog, e, s) ==
          IF r.c # "ok" THEN r
          ELSE LET bad == SlitProblem(prog, e, r.v.v) IN
               IF bad.ek # "" THEN Err(bad.ek, bad.line, r.s)
-              ELSE Ok(StructV(e.n, [i \in 1..Len(e.fs) |-> [n |-> e.fs[i].n, v |-> r.v.v[i]]]), r.s)
+              ELSE Ok(StructV(e.n, SlitFields(e, r.v.v)), r.s)
     [] e.k = "dlit" ->
          \* Dict[k1 => v1, ...]: PINNED evaluation order: last pair first, and within a pair the key before
          \* the value (src/eval.rs DictLiteral pushes value then key for each pair onto the LIFO work list)
